@@ -518,6 +518,7 @@ def build_manager(I: Interp, mgr: ClassInfo, V, mods, **kw) -> AObj:
         del I.path.effects[n0:]  # effects of the setup are K0's business
     else:
         obj.attrs.update({"vector": V, "modules": mods})
+    obj.attrs["__open__"] = True  # state another method of the manager may have set is unknown here, not an error
     return obj
 
 
@@ -867,6 +868,12 @@ def k16_assemble(ctx, pid: str):
         if walk:
             out.append(("K16.order", name, bool(derefs) and derefs[0] < walk[0],
                         "every input must be dereferenced before the first fragment is extracted: phases %r" % (names,)))
+        # fragments cut by assemble() itself (not through the walk) are extractions too
+        first_cut = next((i for i, e in enumerate(o.path.effects) if e[0] == "read" and e[2] == "target"), None)
+        first_deref = next((i for i, e in enumerate(o.path.effects) if e[0] == "phase" and e[1] == "deref"), None)
+        if first_cut is not None:
+            out.append(("K16.order", name + "#early-extraction", first_deref is not None and first_deref < first_cut,
+                        "a fragment is extracted before the inputs' citations are dereferenced: it keeps raw '[n]' strings that are later taken for references"))
         # pairing on all exits: once an input was dereferenced, every exit re-references the inputs
         if derefs:
             out.append(("K16.pairing", name, bool(refs_in) and refs_in[-1] > derefs[-1],
